@@ -183,6 +183,15 @@ impl Metainfo {
             },
         };
 
+        // Total length must fit in u64, total_length() and file_piece_ranges() sum the lengths
+        if files
+            .iter()
+            .try_fold(0u64, |acc, file| acc.checked_add(file.length))
+            .is_none()
+        {
+            return Err(Error::MetaInvalidU64("length"));
+        }
+
         let metainfo = Metainfo {
             announce: Self::find_announce(dict)?,
             name,
